@@ -57,6 +57,8 @@ def render(stmts):
             out.append(f'{st[1]}:')
         elif k == 'const':
             out.append(f'{st[1]} = {st[2]}')
+        elif k == 'markc':
+            out.append(f'.byte {st[1]}')
         elif k == 'include':
             out.append(f'#include "{st[1]}"')
         else:
@@ -75,6 +77,8 @@ class RefCond:
             self.defined[n] = z3.BoolVal(True)
         self.mute = E.bvval(0)
         self.lines = []          # (file, line_no, kind, active Bool, muted Bool, stmt)
+        self.consts = {}         # name -> [(value, active Bool)] in definition order
+        self.must_reject = []    # z3 Bools: a selected reference without a selected definition / two selected definitions
         self.illformed = False
         self._walk(main, z3.BoolVal(True))
 
@@ -126,6 +130,14 @@ class RefCond:
             elif k == 'include':
                 self._walk(st[1], cur())
             else:
+                if k == 'const':
+                    for _, other in self.consts.get(st[1], []):
+                        self.must_reject.append(z3.And(other, cur()))        # the same name defined twice among selected lines
+                    self.consts.setdefault(st[1], []).append((st[2], cur()))
+                if k == 'markc':
+                    # constants are usable before their definition line, so every definition of the file counts
+                    self.lines.append((fname, ln, k, cur(), self.mute > 0, st))
+                    continue
                 self.lines.append((fname, ln, k, cur(), self.mute > 0, st))
 
 
@@ -153,8 +165,19 @@ class CondShape(PipeShape):
         ref = RefCond(env, p['stmts'], 'main.asm', list(p.get('isa_symbols', [])) + list(p.get('cli_symbols', [])))
         if ref.illformed:
             return [('C08.else_elif_endif_without_opener_is_rejected', z3.BoolVal(out.kind != 'ok'))]
+        # references to constants: value of the one selected definition
+        refs = []
+        for (f, ln, kind, active, muted, st) in ref.lines:
+            if kind == 'markc':
+                defs = ref.consts.get(st[1], [])
+                ref.must_reject.append(z3.And(active, z3.Not(z3.Or(*[a for _, a in defs])) if defs else z3.BoolVal(True)))
+                val = E.bvval(0)
+                for v, a in reversed(defs):
+                    val = z3.If(a, E.bvval(v), val)
+                refs.append(((f, ln), active, val))
+        must_reject = z3.Or(*ref.must_reject) if ref.must_reject else z3.BoolVal(False)
         if out.kind != 'ok':
-            return [('C08.well_formed_sequence_is_assembled', z3.BoolVal(False))]
+            return [('C08.well_formed_sequence_is_assembled', must_reject)]
         by_pos = {}
         for li in out.lines:
             by_pos.setdefault((li.file, li.line_num), []).append(li)
@@ -176,18 +199,31 @@ class CondShape(PipeShape):
             if li.compilable:
                 mut.append(muted == z3.BoolVal(bool(li.is_muted)))
             if kind == 'mark' and li.compilable:
-                expected.append(0 if li.is_muted else st[1])      # a muted line keeps its place but emits nothing
+                expected.append(0 if li.is_muted else st[1])
+            if kind == 'markc' and li.compilable:
+                expected.append(None)          # value judged separately (depends on which definition is selected)      # a muted line keeps its place but emits nothing
         A = lambda xs: z3.And(*xs) if xs else z3.BoolVal(True)  # noqa
+        cvals = []
+        for pos, active, val in refs:
+            li = by_pos.get(pos, [None])[0]
+            if li is not None and li.compilable and li.bytes:
+                cvals.append(z3.Implies(active, E.Z(li.bytes[0]) & E.bvval(0xff) == val))
         while expected and expected[-1] == 0:
-            expected.pop()                                        # the image ends at the last emitted byte
+            expected.pop()
+        if any(x is None for x in expected):
+            expected = None                                        # the image ends at the last emitted byte
         img = None if out.image is None else [E.Z(b) for b in out.image]
-        img_ok = img is not None and len(img) == len(expected) and all(
-            z3.is_true(z3.simplify(b == E.bvval(k))) for b, k in zip(img, expected))
-        if not expected:
+        if expected is None:
+            img_ok = True
+        elif not expected:
             img_ok = out.image is None or len(out.image) == 0
+        else:
+            img_ok = img is not None and len(img) == len(expected) and all(
+                z3.is_true(z3.simplify(b == E.bvval(k))) for b, k in zip(img, expected))
         return [
             ('C08.line_contributes_iff_every_enclosing_block_selected_its_branch', A(sel)),
             ('C08.mute_changes_take_effect_iff_selected', A(mut)),
+            ('C08.constants_are_defined_by_selected_lines_only', z3.And(z3.Not(must_reject), A(cvals))),
             ('C08.image_holds_exactly_the_markers_of_selected_unmuted_lines', z3.BoolVal(bool(img_ok))),
         ]
 
@@ -227,6 +263,15 @@ def handwritten():
     H['mute-in-branches'] = [M(1), ('ift', S1), ('mute',), ('endif',), M(2), ('ift', S2), ('unmute',), ('endif',), M(3),
                              ('unmute',), M(4)]
     H['mute-nested'] = [('mute',), ('ift', S1), ('mute',), ('else',), ('unmute',), ('endif',), M(1), ('unmute',), M(2)]
+    H['constant-per-branch'] = [('ift', S1), ('const', 'KK', 17), ('else',), ('const', 'KK', 34), ('endif',), ('markc', 'KK'), M(9)]
+    H['constant-only-in-unselected'] = [('if', S1, '>', N(0)), ('const', 'KK', 5), ('endif',), ('if', S1, '>', N(0)), ('markc', 'KK'),
+                                        ('endif',), M(9)]
+    H['constant-in-nested-unselected'] = [('ift', S1), ('ift', S2), ('const', 'KK', 7), ('endif',), ('endif',), ('const', 'JJ', 9),
+                                          ('ift', S1), ('ift', S2), ('markc', 'KK'), ('endif',), ('endif',), ('markc', 'JJ')]
+    H['constant-elif-chain'] = [('if', S1, '==', N(1)), ('const', 'KK', 1), ('elif', S1, '==', N(2)), ('const', 'KK', 2), ('else',),
+                                ('const', 'KK', 3), ('endif',), ('markc', 'KK')]
+    H['constant-used-before-definition-in-branch'] = [('markc', 'KK'), ('ift', S1), ('const', 'KK', 17), ('else',), ('const', 'KK', 34),
+                                                      ('endif',)]
     H['labels-and-constants'] = [('ift', S1), ('label', 'la'), ('const', 'KA', 5), M(1), ('else',), ('label', 'lb'),
                                  ('const', 'KB', 6), M(2), ('endif',), ('label', 'lc')]
     return H
